@@ -127,14 +127,17 @@ def check(rep, F, rule="bulk-operation-agreement"):
         hi = hi.pop()
         if to is None or lo is None:
             # no loop of its own: a one-argument test handed to an iterator adaptor
-            tests = [g for g in F.closures_of(ov.key) if g.arg_count == 2 and g.locals[0]["ty"] == "bool" and g.locals[2]["ty"] in ("u8", "&u8", "char", "&char")]
+            UNIT_TYS = ("u8", "&u8", "char", "&char", "(usize, char)", "&(usize, char)", "(usize, u8)", "&(usize, u8)")
+            tests = [g for g in F.closures_of(ov.key) if g.arg_count == 2 and g.locals[0]["ty"] == "bool" and g.locals[2]["ty"] in UNIT_TYS]
             ok = False
             det = []
             for g in tests:
                 try:
                     acc = set()
                     for c in range(256):
-                        if fold.Folder(F).call(g.key, [("zst",), ("ref", c) if g.locals[2]["ty"].startswith("&") else c]):
+                        ty = g.locals[2]["ty"]
+                        unit = ("tuple", 0, c) if "(" in ty else c
+                        if fold.Folder(F).call(g.key, [("zst",), ("ref", unit) if ty.startswith("&") else unit]):
                             acc.add(c)
                 except (fold.Unsupported, fold.Diverged) as ex:
                     det.append("%s: %s" % (short(g.key), ex))
